@@ -36,6 +36,21 @@ def build(release=False):
     return time.time() - t0
 
 
+NLBIN_DIR = os.path.join(HARNESS, "target", "nlbin")
+NLBIN = os.path.join(NLBIN_DIR, "debug", "nederlang")
+
+
+def build_binary():
+    """The real `nederlang` executable (no hooks), built from /repo's working tree."""
+    e = cargo_env()
+    e["CARGO_TARGET_DIR"] = NLBIN_DIR
+    p = subprocess.run(["cargo", "build", "-q", "--offline", "--bin", "nederlang"], cwd="/repo", env=e,
+                       capture_output=True, text=True)
+    if p.returncode != 0:
+        raise ToolError("building the nederlang binary failed:\n" + p.stderr[-2000:])
+    return NLBIN
+
+
 def modules():
     return sorted(glob.glob(os.path.join(SPEC, "*.tla")))
 
